@@ -513,7 +513,12 @@ def universe(rng):
             tags.append(["t", rng.choice(["x", "y"])])
         if rng.random() < 0.3:
             tags.append(["p", env.PUBS[rng.randrange(3)]])
+        if rng.random() < 0.3:
+            tags.append(["seq", "s", i])               # an integer tag item: admitted by is_signed, must be served as sent
         evs.append(env.mk_event(who, kind, env.NOW - 100 + 10 * i + rng.choice([0, 0, 1]), tags, "c%d" % i))
+    if rng.random() < 0.5:
+        # validly signed events no relay may admit (boolean / null / nested tag items): refused, and never seen by anybody
+        evs.append(env.mk_event(rng.randrange(3), 1, env.NOW - 15, [["t", rng.choice([True, None, ["x"], 1.5])]], "bad item"))
     return evs
 
 
@@ -831,6 +836,32 @@ def suite_validate(tier, seed, pid="RELAY", entry="relay.validate"):
         if rng.random() < 0.1:
             f[rng.choice(keys)] = rng.choice(RAW_POOL)
         cases.append(f)
+    # filters on which validation must at least TERMINATE: run in a child process with a budget, because an input that sends
+    # the validator into exponential backtracking would otherwise hang this check (and, in the relay, the whole event loop)
+    nasty = []
+    for n in (31, 32, 33, 40, 64, 100, 2000):
+        for tail in ("z", "Z", "!", " ", "g0", "\n", "ab\u00e9"):
+            nasty.append({"ids": ["ab" * n + tail]})
+            nasty.append({"authors": ["0f" * n + tail], "kinds": [1]})
+            nasty.append({"ids": ["a" * (2 * n - 1) + tail, "ab" * 32]})
+    import subprocess
+    import sys as _sys
+    import os as _os
+    code = ("import sys, json\nfrom nostr_relay.config import Config\nfrom nostr_relay.storage.base import NostrQuery\n"
+            "n = 0\nfor raw in json.load(sys.stdin):\n    try:\n        NostrQuery.model_validate(raw)\n    except Exception:\n        pass\n    n += 1\nprint('DONE', n)\n")
+    repo = _os.environ.get("VERIF_REPO", "/repo")
+    try:
+        pr = subprocess.run([_sys.executable, "-c", code], input=json.dumps(nasty).encode(), stdout=subprocess.PIPE, stderr=subprocess.PIPE, timeout=60,
+                            env=dict(_os.environ, PYTHONPATH="%s:/verif/shims:/verif" % repo))
+        finished = ("DONE %d" % len(nasty)) in pr.stdout.decode()
+    except subprocess.TimeoutExpired:
+        finished = False
+    s.case({"nasty_filters": len(nasty)}, nontrivial=True)
+    s.count("validation_terminates" if finished else "validation_hangs")
+    if not finished:
+        s.violate("input-wedges-the-relay", {"filters": nasty[:12], "n": len(nasty)},
+                  "validating %d filters with almost-hex ids / authors did not finish within 60 s: such a REQ blocks the relay's event loop" % len(nasty))
+        return s
     impls = []
     for raw in cases:
         try:
